@@ -1621,7 +1621,8 @@ func (bc *Blockchain) removeOldHeaderHashes(index uint32) time.Duration {
 	)
 	// The last complete page is needed to start the node (see HeaderHashes.init),
 	// keep it even if MaxTraceableBlocks is smaller than the page.
-	till = min(till, (int32(bc.HeaderHeight()+1)/headerBatchCount-2)*headerBatchCount)
+	// Use persisted height, pages are removed from the DB directly.
+	till = min(till, (int32(atomic.LoadUint32(&bc.persistedHeight)+1)/headerBatchCount-2)*headerBatchCount)
 	if till > 0 {
 		err = bc.store.SeekGC(storage.SeekRange{
 			Prefix: []byte{byte(storage.IXHeaderHashList)},
